@@ -4,6 +4,7 @@ import (
 	"bytes"
 	"fmt"
 	"os"
+	"sort"
 	"strings"
 
 	"github.com/bufbuild/buf/private/bufpkg/bufconfig"
@@ -196,6 +197,41 @@ func canonLock(f bufconfig.BufLockFile) (nd.Node, error) {
 	return nd.L(nd.A(f.FileVersion().String()), nd.L(xs...), nd.L(ps...)), nil
 }
 
+// lockPluginsFaithful: the `plugins:` entries of a buf.lock document (decoded with yaml.v3) are,
+// as a set, exactly the (full name, commit, digest) triples of RemotePluginKeys(), which are
+// sorted by full name (implementation-only oracle; independent of the model).
+func lockPluginsFaithful(doc []byte, f bufconfig.BufLockFile) []string {
+	var y struct {
+		Plugins []yLockDepV2 `yaml:"plugins"`
+	}
+	if err := yaml.Unmarshal(doc, &y); err != nil {
+		return []string{"document does not decode: " + err.Error()}
+	}
+	var want, got []string
+	for _, p := range y.Plugins {
+		want = append(want, p.Name+" "+p.Commit+" "+p.Digest)
+	}
+	sort.Strings(want)
+	prev := ""
+	for _, k := range f.RemotePluginKeys() {
+		dg, err := k.Digest()
+		if err != nil {
+			return []string{"Digest(): " + err.Error()}
+		}
+		name := k.FullName().String()
+		if prev != "" && !(prev < name) {
+			return []string{fmt.Sprintf("RemotePluginKeys() not sorted by full name: %q before %q", prev, name)}
+		}
+		prev = name
+		got = append(got, name+" "+uuidutil.ToDashless(k.CommitID())+" "+dg.String())
+	}
+	sort.Strings(got)
+	if strings.Join(want, "|") != strings.Join(got, "|") {
+		return []string{fmt.Sprintf("document %q, keys %q", want, got)}
+	}
+	return nil
+}
+
 func digestClass(s string) string {
 	switch {
 	case strings.HasPrefix(s, "shake256:"):
@@ -304,10 +340,17 @@ func runLock(run *hx.Run, r *hx.Rand, n int) {
 			continue
 		}
 		run.Count("lock:" + ver + ":ok")
+		if ds := lockPluginsFaithful(data, f1); len(ds) > 0 {
+			failC(run, hx.OracleFailure{Class: "lock-plugin-read-unfaithful", What: "buf.lock plugins: RemotePluginKeys() do not say what the document says: " + strings.Join(ds, "; "), Input: string(data), Replay: replay})
+		}
 		var w1 bytes.Buffer
 		if err := bufconfig.WriteBufLockFile(&w1, f1); err != nil {
 			failC(run, hx.OracleFailure{Class: "lock-write-error", What: err.Error(), Input: string(data), Replay: replay})
 			continue
+		}
+		if ds := lockPluginsFaithful(w1.Bytes(), f1); len(ds) > 0 {
+			failC(run, hx.OracleFailure{Class: "lock-plugin-written-unfaithful", What: "buf.lock plugins: the written document does not spell the keys that were written: " + strings.Join(ds, "; "),
+				Input: map[string]string{"document": string(data), "written": w1.String()}, Replay: replay})
 		}
 		// re-parse the written file into the structured form
 		var wds []gLockDep
